@@ -102,6 +102,8 @@ def run(chk):
                 if n == 4 and nproc == 2:
                     order = [1, 0, 2, 3]
                 scen.append(dict(np=nproc, calls=[dict(n=n, order=order, fail=fail, exc=kind), dict(n=2, order=[0, 1], fail=[])]))
+    # several ParallelMap objects in one interpreter, each for a different equilibrium created after the previous one was deleted
+    seq_scen = [dict(np=2, eq_sequence=6), dict(np=3, eq_sequence=4)]
     os.makedirs(os.path.join(common.CACHE, "c13tmp"), exist_ok=True)
     chunks = [scen[k::8] for k in range(8)]
     from concurrent.futures import ThreadPoolExecutor
@@ -112,6 +114,24 @@ def run(chk):
     with ThreadPoolExecutor(max_workers=8) as ex:
         results = list(ex.map(go, chunks))
     nrun = nagree = 0
+    rcs, ress, os_, es_ = common.run_impl_json("impl/parmap.py", seq_scen, timeout=120, extra_env={"C13_TMP": os.path.join(common.CACHE, "c13tmp")})
+    if ress is None:
+        chk.tie_broken("impl/parmap.py:eq-sequence", f"rc={rcs}: {(os_ + es_)[-600:]}")
+    else:
+        reused = 0
+        for sc, obs in zip(seq_scen, ress):
+            ids = [o[1] for o in obs]
+            reused += len(ids) - len(set(ids))
+            for j, (psi_own, _id, o) in enumerate(obs):
+                nrun += 1
+                if o[0] == "ok" and all(abs(r[2] - psi_own) < 1e-12 for r in o[1]):
+                    nagree += 1
+                elif o == ["timeout"]:
+                    chk.fail("blocks-forever:no-failure", "a ParallelMap created after an earlier one in the same interpreter blocks", {"np": sc["np"], "position_in_sequence": j})
+                else:
+                    chk.fail("workers-use-another-equilibrium", "the workers of a ParallelMap evaluate with an equilibrium that is not the one it was created for (a later object in the same interpreter inherits an earlier one's state)",
+                             {"np": sc["np"], "position_in_sequence": j, "psi_of_its_equilibrium": psi_own, "observed": o, "object_addresses": ids})
+        chk.notes["eq_sequence"] = {"objects": sum(len(o) for o in ress), "address_reused": reused}
     for ch, (rc, res, o, e) in zip(chunks, results):
         if res is None:
             chk.tie_broken("impl/parmap.py", f"scenario runner failed rc={rc}: {(o + e)[-800:]}")
